@@ -25,14 +25,14 @@ const (
 var stName = map[int]string{1: "OpenSent", 2: "OpenConfirm", 3: "Established"}
 
 // reach drives a fresh connection into FSM state st (from the remote's side).
-func reach(r *world.Remote, st int, ras uint32, hold uint16) bool {
+func reach(r *world.Remote, st int, ras uint32, hold uint16, extra ...wire.Cap) bool {
 	if _, ok := r.Expect(wire.TypeOpen); !ok {
 		return false
 	}
 	if st == stOpenSent {
 		return true
 	}
-	r.Send(wire.Open(ras, hold, 0x0a000002))
+	r.Send(wire.Open(ras, hold, 0x0a000002, extra...))
 	if _, ok := r.Expect(wire.TypeKeepalive); !ok {
 		return false
 	}
@@ -65,8 +65,17 @@ type stimCase struct {
 	PlugAt   string   `json:"plugin_at,omitempty"`  // open | handler
 	PlugN    string   `json:"plugin_notif_hex,omitempty"`
 	Delivery string   `json:"expect_delivery_hex,omitempty"` // length-sweep: body that must be delivered
-	// Cfg varies the session the stimulus meets: "" (local hold default, remote 90) | lhold0 | rhold0 | lhold3 | ibgp
+	// Cfg varies the session the stimulus meets: "" (local hold default, remote 90) | lhold0 | rhold0 | lhold3 | ibgp | rcap6
 	Cfg string `json:"cfg,omitempty"`
+}
+
+// stimCaps: capabilities the remote advertises besides its 4-octet AS (rcap6: RFC 8654 Extended Message,
+// which the local plugin does NOT advertise, so nothing about the 4096-octet limit changes).
+func stimCaps(cfg string) []wire.Cap {
+	if cfg == "rcap6" {
+		return []wire.Cap{{Code: 6}, {Code: 2}}
+	}
+	return nil
 }
 
 // stimCfg returns (local hold option or -1, hold time in the remote's OPEN, remote AS).
@@ -128,7 +137,7 @@ func runStim(cs stimCase, trace bool) (*stimObs, *vrt.Exec) {
 			conns++
 			if cs.Expect == "second-connection" && conns == 2 {
 				// the second connection of the peer: a clean handshake must work
-				o.secondUp = reach(r, stEstablished, ras, rhold)
+				o.secondUp = reach(r, stEstablished, ras, rhold, stimCaps(cs.Cfg)...)
 				o.secondRx = append([]wire.Msg{}, r.Rx...)
 				return
 			}
@@ -138,9 +147,9 @@ func runStim(cs stimCase, trace bool) (*stimObs, *vrt.Exec) {
 					return
 				}
 				o.reached = true
-				r.Send(wire.Open(ras, rhold, 0x0a000002))
+				r.Send(wire.Open(ras, rhold, 0x0a000002, stimCaps(cs.Cfg)...))
 			} else {
-				if !reach(r, st, ras, rhold) {
+				if !reach(r, st, ras, rhold, stimCaps(cs.Cfg)...) {
 					return
 				}
 				o.reached = true
@@ -394,10 +403,21 @@ func trunc(b []byte) []byte {
 func stimReplay(prop string) func(c *harness.Ctx, raw json.RawMessage) {
 	return func(c *harness.Ctx, raw json.RawMessage) {
 		var r struct {
-			Case stimCase `json:"case"`
+			Case     stimCase `json:"case"`
+			Scenario string   `json:"scenario"`
 		}
 		if err := json.Unmarshal(raw, &r); err != nil {
 			panic(err)
+		}
+		if r.Scenario != "" {
+			scnReplay(prop, func(name string) *Scn {
+				var cut int
+				if n, _ := fmt.Sscanf(name, "two-peers-rx/cut%d", &cut); n == 1 {
+					return twoPeersRxScn(prop, cut, 3)
+				}
+				return nil
+			})(c, raw)
+			return
 		}
 		evalStim(c, prop, r.Case, true)
 	}
@@ -441,6 +461,21 @@ func headerAdmit(hdr []byte) [][3]int {
 func c08Check(c *harness.Ctx) {
 	th := c.Thorough()
 	idx := 0
+	if stimCollector == nil {
+		// framing is per connection: two sessions receiving split headers at the same instant
+		for i, cut := range twoPeersRxCuts {
+			if !c.Mine(i) {
+				continue
+			}
+			b := 2
+			if th {
+				b = 3
+			}
+			if !exploreScn(c, "C08", twoPeersRxScn("C08", cut, b)) {
+				return
+			}
+		}
+	}
 	run := func(cs stimCase, nontrivial bool) bool {
 		idx++
 		if !c.Mine(idx) {
@@ -546,7 +581,7 @@ func c08Check(c *harness.Ctx) {
 						// the same fault in sessions with other hold-time configurations (local 0: no
 						// timers at all; remote 0; local 3: short timers)
 						if pi == 0 && (th || fi%5 == 0) {
-							for _, cfg := range []string{"lhold0", "rhold0", "lhold3", "ibgp"} {
+							for _, cfg := range []string{"lhold0", "rhold0", "lhold3", "ibgp", "rcap6"} {
 								cc := cs
 								cc.Cfg = cfg
 								if !run(cc, len(cs.Admit) == 1) {
@@ -704,7 +739,7 @@ func c09Check(c *harness.Ctx) {
 							return
 						}
 					}
-					for _, cfg := range []string{"lhold0", "rhold0", "lhold3", "ibgp"} {
+					for _, cfg := range []string{"lhold0", "rhold0", "lhold3", "ibgp", "rcap6"} {
 						cc := cs
 						cc.Cfg = cfg
 						if name == "open" {
@@ -866,7 +901,7 @@ func c09SecondSession(c *harness.Ctx, idx *int) bool {
 func init() {
 	harness.Register(&harness.Check{
 		Property: "C08", Level: "exploration", NeedsConc: true, QuickS: 120, ThoroughS: 900,
-		Rule:   "for each of OpenSent/OpenConfirm/Established x direction: every single-octet marker corruption (3 values), every out-of-range length (0..18, >4096 boundary set), every unknown type octet at lengths 19 and 23, preceded by 0-2 well-formed messages and followed by a well-formed UPDATE, under a set of TCP segmentations; in-range UPDATE length sweep in Established; plugin-returned NOTIFICATIONs of every data length; KEEPALIVE headers announcing a body (framing must not be lost), octets left unread on a connection that ends must not leak into the next connection; each case is one run of the real FSM over the virtual wire; non-trivial = header with exactly one fault, or a delivery/fidelity case",
+		Rule:   "for each of OpenSent/OpenConfirm/Established x direction: every single-octet marker corruption (3 values), every out-of-range length (0..18, >4096 boundary set), every unknown type octet at lengths 19 and 23, preceded by 0-2 well-formed messages and followed by a well-formed UPDATE, under a set of TCP segmentations; in-range UPDATE length sweep in Established; plugin-returned NOTIFICATIONs of every data length; KEEPALIVE headers announcing a body (framing must not be lost), octets left unread on a connection that ends must not leak into the next connection; two peers receiving split-header streams at the same instant under all schedules within delay bound 2 / 3; each case is one run of the real FSM over the virtual wire; non-trivial = header with exactly one fault, or a delivery/fidelity case",
 		Assume: []string{"default schedule; virtual network (A3)", "data of (1,1)/(1,2) notifications and per-type minimum lengths are not judged (property silent)"},
 		Run:    c08Check, Replay: stimReplay("C08"),
 	})
